@@ -11,6 +11,7 @@ LEVEL = {
  'C14': ('proof', 'Theorems (all byte arrays, unbounded length): the transcribed encoders equal the RFC 4648 / two-hex-digit specification, lengths are 2n and 4*ceil(n/3), and both decoders invert both encoders; alphabet/value tables are regenerated from the header on every run and the table facts are closed by vm_compute. The transcription is tied to the code by running model, spec oracle and the real library on every byte value in every group position, every length class and seeded arrays.', 'DESIGN.md section 6 C14'),
  'C15': ('proof', 'Theorems (all input strings, all output sizes): the transcribed caller-buffer decoders return a non-negative count exactly on valid input that fits, never write at an index >= output_size, report the length implied by size and padding for a null output, and the allocating forms throw codec_error exactly on invalid input. Tie: exhaustive short strings over a mixed alphabet, all two-group padding shapes, every byte in every position, output sizes around the decoded length, under ASan with exact-size buffers.', 'DESIGN.md section 6 C15'),
 }
+LEVEL['C05'] = ('proof', 'Theorems for a parametric small-buffer limit L >= 1 (instantiated with the four limits harvested from the headers): an ownership invariant (short => data() is the object\'s own array with NUL at [size]; long => a live heap block of size+1 cells with NUL at [size] referenced by no other object; every live block owned by a live buffer) holds initially and is re-established by every member (default/copy/move/(ptr,len)/(count,fill) construction, destruction, clear, copy and move assignment incl. self, allocate, allocate(n,fill), user writes); every member returns normally (double free, free of in-object storage, out-of-bounds access, use of released storage are Fault values of the model and are proved unreachable) and changes the abstract values exactly as a plain value store says (a moved-from object keeps SOME valid value); lifted by induction to every finite well-formed history; an observer sees size, content, terminator and storage class; no two objects share storage; end of scope leaves no live block. The transcription (Mem/Buffer.v) is tied to include/st_charbuffer.h by running whole histories (directed size-class products + seeded) for all four element types against the real library under ASan/UBSan with allocation counting, observing every live object after every operation.', 'DESIGN.md section 6 C05')
 NOTE = {}
 DEFAULT_NOTE = 'Trusted: Coq kernel + VM; translator for tables/constants; ExtrOcamlBasic extraction and the OCaml driver; the C++ harness, g++ and the sanitizers as observers; the C++ semantics of the transcribed statements (LP64, signed char, 32-bit wchar_t) are modelled, not verified. See DESIGN.md section 8.'
 
